@@ -30,10 +30,10 @@ type C01Op struct {
 }
 
 type C01Tamper struct {
-	Zone   string `json:"zone"`           // responses given by this zone's servers
-	Kind   string `json:"kind"`           // authsim.TamperKinds
-	Step   string `json:"step"`           // answer negative referral ds dnskey any
-	FromOp int    `json:"from_op"`        // active while from_op <= op index < to_op
+	Zone   string `json:"zone"`    // responses given by this zone's servers
+	Kind   string `json:"kind"`    // authsim.TamperKinds
+	Step   string `json:"step"`    // answer negative referral ds dnskey any
+	FromOp int    `json:"from_op"` // active while from_op <= op index < to_op
 	ToOp   int    `json:"to_op"`
 	Qname  string `json:"qname,omitempty"` // only responses to this question name
 }
@@ -87,7 +87,7 @@ func genC01(r *kit.RNG) *C01Scenario {
 			if r.Bool() {
 				sc.World.Zones[i].SigFromH, sc.World.Zones[i].SigToH = -72, -24
 			} else {
-				sc.World.Zones[i].SigFromH, sc.World.Zones[i].SigToH = 24 * 30, 24 * 60
+				sc.World.Zones[i].SigFromH, sc.World.Zones[i].SigToH = 24*30, 24*60
 			}
 		}
 	}
@@ -182,7 +182,44 @@ func runC01(sc *C01Scenario, tr *kit.Trace) *kit.Result {
 	return res
 }
 
-func execC01(sc *C01Scenario, tr *kit.Trace, res *kit.Result) {
+// resOp is what an oracle sees after one client operation in a W-res history.
+type resOp struct {
+	i            int
+	op           C01Op
+	m            *dns.Msg
+	truth        *authsim.Truth
+	tclass       string
+	rclass       string
+	ctx          string
+	fired        []firedRec
+	upstream     int
+	everTampered bool
+	w            *world.Res
+	sc           *C01Scenario
+	res          *kit.Result
+	tr           *kit.Trace
+	hookLog      *[]hookRec
+}
+
+type firedRec struct {
+	kind, step, zone, qname string
+	qtype                   uint16
+}
+
+// hookRec is one authoritative response as delivered (tampered or not).
+type hookRec struct {
+	at       time.Duration
+	zone     string
+	kind     string // authsim answer kind
+	step     string
+	tampered bool
+	op       int
+	cd       bool
+}
+
+func execC01(sc *C01Scenario, tr *kit.Trace, res *kit.Result) { execRes(sc, tr, res, "C01", oracleC01) }
+
+func execRes(sc *C01Scenario, tr *kit.Trace, res *kit.Result, pid string, oracle func(o *resOp) bool) {
 	w := world.NewRes(&sc.World, sc.Seed, tr)
 	defer w.Close()
 	zones := w.World.Zones
@@ -208,11 +245,8 @@ func execC01(sc *C01Scenario, tr *kit.Trace, res *kit.Result) {
 		return zones[min]
 	}
 	curOp := -1
-	type firedRec struct {
-		kind, step, zone, qname string
-		qtype                   uint16
-	}
 	var fired []firedRec
+	var hookLog []hookRec
 	w.Hook = func(addr netip.Addr, q *simnet.Query, honest *authsim.Answer) []simnet.Reply {
 		if honest.Zone == nil || len(q.Msg.Question) == 0 {
 			return nil
@@ -221,6 +255,10 @@ func execC01(sc *C01Scenario, tr *kit.Trace, res *kit.Result) {
 		step := authsim.StepOf(honest, qu.Qtype)
 		msg := honest
 		applied := false
+		spoiled := false // the delivered response no longer carries a valid proof
+		defer func() {
+			hookLog = append(hookLog, hookRec{at: w.Now(), zone: honest.Zone.Name, kind: honest.Kind, step: step, tampered: spoiled, op: curOp, cd: q.Msg.CheckingDisabled})
+		}()
 		for _, t := range sc.Tampers {
 			if curOp < t.FromOp || curOp >= t.ToOp || dns.CanonicalName(t.Zone) != honest.Zone.Name {
 				continue
@@ -238,6 +276,9 @@ func execC01(sc *C01Scenario, tr *kit.Trace, res *kit.Result) {
 			}
 			msg = &authsim.Answer{Zone: honest.Zone, Msg: m, Kind: honest.Kind, Child: honest.Child}
 			applied = true
+			if t.Kind != "denial-dup-reorder" && authsim.Invalidating(t.Kind) {
+				spoiled = true
+			}
 			fired = append(fired, firedRec{t.Kind, step, honest.Zone.Name, dns.CanonicalName(qu.Name), qu.Qtype})
 			res.Fault("tamper:" + t.Kind)
 			res.Probes["tamper-step:"+step]++
@@ -287,7 +328,7 @@ func execC01(sc *C01Scenario, tr *kit.Trace, res *kit.Result) {
 			everTampered = true
 		}
 		if len(c.Replies) != 1 {
-			res.Fail("C01/reply-count", "op %d %s/%s: %d replies", i, op.Name, dns.TypeToString[op.Qtype], len(c.Replies))
+			res.Fail(pid+"/reply-count", "op %d %s/%s: %d replies", i, op.Name, dns.TypeToString[op.Qtype], len(c.Replies))
 			return
 		}
 		m := c.Replies[0]
@@ -298,141 +339,153 @@ func execC01(sc *C01Scenario, tr *kit.Trace, res *kit.Result) {
 		tr.AddAt(w.Now(), "op %d %s/%s do=%v ad=%v cd=%v -> %s ans=%d upstream=%d lat=%v truth=%s fired=%d", i, op.Name, dns.TypeToString[op.Qtype], op.DO, op.AD, op.CD, rclass, len(m.Answer), upstream, lat, tclass, len(fired))
 		tr.Shape(fmt.Sprintf("%s|%s|%v|%v", tclass, rclass, len(fired) > 0, op.CD))
 		ctx := fmt.Sprintf("op %d %s/%s (do=%v ad=%v cd=%v): reply %s", i, op.Name, dns.TypeToString[op.Qtype], op.DO, op.AD, op.CD, rclass)
-		// Clause 4: AD never toward CD clients or clients that set neither DO nor AD.
-		if m.AuthenticatedData && (op.CD || (!op.DO && !op.AD)) {
-			res.Fail("C01/ad-to-unentitled-client", "%s: AD set for a client with cd=%v do=%v ad=%v", ctx, op.CD, op.DO, op.AD)
+		o := &resOp{i: i, op: op, m: m, truth: truth, tclass: tclass, rclass: rclass, ctx: ctx, fired: fired, upstream: upstream,
+			everTampered: everTampered, w: w, sc: sc, res: res, tr: tr, hookLog: &hookLog}
+		if !oracle(o) {
 			return
-		}
-		// Clause 3: AD only for secure data.
-		if m.AuthenticatedData && !truth.Secure {
-			res.Fail("C01/ad-on-insecure", "%s: AD set but the name is not under an unbroken signed chain (truth %s)", ctx, tclass)
-			return
-		}
-		if m.AuthenticatedData && truth.OptOut && (truth.Kind == "nxdomain" || truth.Kind == "nodata") && op.Qtype == dns.TypeDS {
-			res.Fail("C01/ad-on-optout-denial", "%s: AD set on a denial that rests on an opt-out span", ctx)
-			return
-		}
-		if op.CD {
-			continue // checking disabled: the client asked for unvalidated data
-		}
-		if op.Qtype == dns.TypeANY || op.Qtype == dns.TypeRRSIG || truth.Loop {
-			continue
-		}
-		if sc.World.Cfg.NoAnchor {
-			// Clause 5: no trust anchor => SERVFAIL rather than unvalidated data.
-			if m.Rcode != dns.RcodeServerFailure {
-				res.Fail("C01/no-anchor-not-servfail", "%s: no trust anchor is configured but the reply is not SERVFAIL", ctx)
-			}
-			res.Probes["no-anchor-servfail"]++
-			continue
-		}
-		if truth.Bogus {
-			if m.Rcode != dns.RcodeServerFailure {
-				res.Fail("C01/expired-signatures-accepted", "%s: a zone on the secure path only has signatures outside their validity window, yet the client did not get SERVFAIL", ctx)
-				return
-			}
-			res.Probes["bogus-window-servfail"]++
-			res.Nontrivial = true
-			continue
-		}
-		if m.Rcode == dns.RcodeServerFailure {
-			if !everTampered {
-				res.Probes["selfcheck:faultfree-servfail"]++
-				tr.AddAt(w.Now(), "SELF-CHECK: SERVFAIL with no tampering so far")
-			}
-			if !op.NoEDNS && everTampered && !hasEDE(m) && truth.Secure {
-				via := "direct"
-				for _, rr := range truth.Answer {
-					if rr.Header().Rrtype == dns.TypeDNAME {
-						via = "via DNAME"
-					}
-				}
-				res.Fail("C01/servfail-without-ede", "%s: SERVFAIL to an EDNS client without an Extended DNS Error (%s)", ctx, via)
-			}
-			continue
-		}
-		if !truth.Secure {
-			continue // insecure names cannot be authenticated; only the AD clauses apply
-		}
-		if truth.OptOut && truth.Kind == "nxdomain" {
-			// The name falls in an NSEC3 opt-out span: the zone does not sign the absence
-			// of insecure delegations there, so an attacker can legitimately-looking
-			// place unsigned data or denials at it. Only "never AD" applies.
-			if m.AuthenticatedData {
-				res.Fail("C01/ad-on-optout-denial", "%s: AD set although the denial rests on an opt-out span", ctx)
-				return
-			}
-			res.Probes["optout-span-name"]++
-			continue
-		}
-		// Clause 1: secure => exactly what the signer published.
-		if evil := containsEvil(m); evil != "" {
-			res.Fail("C01/foreign-record-relayed", "%s: reply carries a record of attacker origin: %s\n%s", ctx, evil, m.String())
-			return
-		}
-		if m.Rcode == dns.RcodeSuccess && truth.Rcode == dns.RcodeNameError && everTampered {
-			// An attacker can rewrite the (unsigned) rcode of a proven NXDOMAIN to NOERROR;
-			// the proof still shows there is no data. Reporting "no data" for a name that
-			// does not exist denies nothing that exists, so it is not altered data. (The
-			// reverse — NXDOMAIN for a name that exists — is checked.)
-			res.Probes["nxdomain-downgraded-to-nodata"]++
-		} else if m.Rcode != truth.Rcode {
-			res.Fail("C01/altered-rcode", "%s: zone data says %s (%s)", ctx, dns.RcodeToString[truth.Rcode], tclass)
-			return
-		}
-		got := authsim.RRKeys(m.Answer, dns.TypeRRSIG)
-		want := authsim.RRKeys(truth.Answer, dns.TypeRRSIG)
-		same := strings.Join(got, "\n") == strings.Join(want, "\n")
-		if !same && (truth.Kind == "nxdomain" || truth.Kind == "nodata") {
-			// A denial at the end of an alias chain: the rcode/denial is the content; the
-			// chain records in the answer may be omitted, but whatever is shown must be
-			// records the zone publishes.
-			same = true
-			wset := map[string]bool{}
-			for _, k := range want {
-				wset[k] = true
-			}
-			for _, k := range got {
-				if !wset[k] {
-					same = false
-				}
-			}
-			if same {
-				res.Probes["denial-with-partial-chain"]++
-			}
-		}
-		if !same {
-			res.Fail("C01/altered-answer", "%s: answer differs from what the zone publishes\n got: %v\nwant: %v", ctx, got, want)
-			return
-		}
-		if len(want) > 0 || truth.Kind != "answer" {
-			res.Probes["secure-validated:"+truth.Kind]++
-			if (op.DO || op.AD) && m.AuthenticatedData {
-				res.Nontrivial = true
-			}
-		}
-		// Clause 2: an invalidating tampering of this question's own response (or of a
-		// DNSKEY response of a zone on its path) must surface as SERVFAIL.
-		for _, f := range fired {
-			if !authsim.Invalidating(f.kind) {
-				continue
-			}
-			own := f.qname == dns.CanonicalName(op.Name) && f.qtype == op.Qtype && (f.step == "answer" || f.step == "negative")
-			onPath := false
-			if f.step == "dnskey" {
-				for _, z := range truth.Zones {
-					if z.Name == f.zone {
-						onPath = true
-					}
-				}
-			}
-			resign := f.kind == "sig-resign" || f.kind == "forge-resign"
-			if (own || onPath) && f.kind != "drop-some-sigs" && !resign || (own && resign) {
-				res.Fail("C01/tampered-not-servfail", "%s: tampering %s hit the %s response of %s for %s/%s, yet the client did not get SERVFAIL", ctx, f.kind, f.step, f.zone, f.qname, dns.TypeToString[f.qtype])
-				return
-			}
 		}
 	}
+}
+
+// oracleC01 evaluates the C01 clauses on one reply; false stops the run.
+func oracleC01(o *resOp) bool {
+	i, op, m, truth, ctx, fired, everTampered, w, sc, res, tr, tclass := o.i, o.op, o.m, o.truth, o.ctx, o.fired, o.everTampered, o.w, o.sc, o.res, o.tr, o.tclass
+	_, _, _ = i, tr, tclass
+	// Clause 4: AD never toward CD clients or clients that set neither DO nor AD.
+	if m.AuthenticatedData && (op.CD || (!op.DO && !op.AD)) {
+		res.Fail("C01/ad-to-unentitled-client", "%s: AD set for a client with cd=%v do=%v ad=%v", ctx, op.CD, op.DO, op.AD)
+		return false
+	}
+	// Clause 3: AD only for secure data.
+	if m.AuthenticatedData && !truth.Secure {
+		res.Fail("C01/ad-on-insecure", "%s: AD set but the name is not under an unbroken signed chain (truth %s)", ctx, tclass)
+		return false
+	}
+	if m.AuthenticatedData && truth.OptOut && (truth.Kind == "nxdomain" || truth.Kind == "nodata") && op.Qtype == dns.TypeDS {
+		res.Fail("C01/ad-on-optout-denial", "%s: AD set on a denial that rests on an opt-out span", ctx)
+		return false
+	}
+	if op.CD {
+		return true // checking disabled: the client asked for unvalidated data
+	}
+	if op.Qtype == dns.TypeANY || op.Qtype == dns.TypeRRSIG || truth.Loop {
+		return true
+	}
+	if sc.World.Cfg.NoAnchor {
+		// Clause 5: no trust anchor => SERVFAIL rather than unvalidated data.
+		if m.Rcode != dns.RcodeServerFailure {
+			res.Fail("C01/no-anchor-not-servfail", "%s: no trust anchor is configured but the reply is not SERVFAIL", ctx)
+		}
+		res.Probes["no-anchor-servfail"]++
+		return true
+	}
+	if truth.Bogus {
+		if m.Rcode != dns.RcodeServerFailure {
+			res.Fail("C01/expired-signatures-accepted", "%s: a zone on the secure path only has signatures outside their validity window, yet the client did not get SERVFAIL", ctx)
+			return false
+		}
+		res.Probes["bogus-window-servfail"]++
+		res.Nontrivial = true
+		return true
+	}
+	if m.Rcode == dns.RcodeServerFailure {
+		if !everTampered {
+			res.Probes["selfcheck:faultfree-servfail"]++
+			tr.AddAt(w.Now(), "SELF-CHECK: SERVFAIL with no tampering so far")
+		}
+		if !op.NoEDNS && everTampered && !hasEDE(m) && truth.Secure {
+			via := "direct"
+			for _, rr := range truth.Answer {
+				if rr.Header().Rrtype == dns.TypeDNAME {
+					via = "via DNAME"
+				}
+			}
+			res.Fail("C01/servfail-without-ede", "%s: SERVFAIL to an EDNS client without an Extended DNS Error (%s)", ctx, via)
+		}
+		return true
+	}
+	if !truth.Secure {
+		return true // insecure names cannot be authenticated; only the AD clauses apply
+	}
+	if truth.OptOut && truth.Kind == "nxdomain" {
+		// The name falls in an NSEC3 opt-out span: the zone does not sign the absence
+		// of insecure delegations there, so an attacker can legitimately-looking
+		// place unsigned data or denials at it. Only "never AD" applies.
+		if m.AuthenticatedData {
+			res.Fail("C01/ad-on-optout-denial", "%s: AD set although the denial rests on an opt-out span", ctx)
+			return false
+		}
+		res.Probes["optout-span-name"]++
+		return true
+	}
+	// Clause 1: secure => exactly what the signer published.
+	if evil := containsEvil(m); evil != "" {
+		res.Fail("C01/foreign-record-relayed", "%s: reply carries a record of attacker origin: %s\n%s", ctx, evil, m.String())
+		return false
+	}
+	if m.Rcode == dns.RcodeSuccess && truth.Rcode == dns.RcodeNameError && everTampered {
+		// An attacker can rewrite the (unsigned) rcode of a proven NXDOMAIN to NOERROR;
+		// the proof still shows there is no data. Reporting "no data" for a name that
+		// does not exist denies nothing that exists, so it is not altered data. (The
+		// reverse — NXDOMAIN for a name that exists — is checked.)
+		res.Probes["nxdomain-downgraded-to-nodata"]++
+	} else if m.Rcode != truth.Rcode {
+		res.Fail("C01/altered-rcode", "%s: zone data says %s (%s)", ctx, dns.RcodeToString[truth.Rcode], tclass)
+		return false
+	}
+	got := authsim.RRKeys(m.Answer, dns.TypeRRSIG)
+	want := authsim.RRKeys(truth.Answer, dns.TypeRRSIG)
+	same := strings.Join(got, "\n") == strings.Join(want, "\n")
+	if !same && (truth.Kind == "nxdomain" || truth.Kind == "nodata") {
+		// A denial at the end of an alias chain: the rcode/denial is the content; the
+		// chain records in the answer may be omitted, but whatever is shown must be
+		// records the zone publishes.
+		same = true
+		wset := map[string]bool{}
+		for _, k := range want {
+			wset[k] = true
+		}
+		for _, k := range got {
+			if !wset[k] {
+				same = false
+			}
+		}
+		if same {
+			res.Probes["denial-with-partial-chain"]++
+		}
+	}
+	if !same {
+		res.Fail("C01/altered-answer", "%s: answer differs from what the zone publishes\n got: %v\nwant: %v", ctx, got, want)
+		return false
+	}
+	if len(want) > 0 || truth.Kind != "answer" {
+		res.Probes["secure-validated:"+truth.Kind]++
+		if (op.DO || op.AD) && m.AuthenticatedData {
+			res.Nontrivial = true
+		}
+	}
+	// Clause 2: an invalidating tampering of this question's own response (or of a
+	// DNSKEY response of a zone on its path) must surface as SERVFAIL.
+	for _, f := range fired {
+		if !authsim.Invalidating(f.kind) {
+			return true
+		}
+		own := f.qname == dns.CanonicalName(op.Name) && f.qtype == op.Qtype && (f.step == "answer" || f.step == "negative")
+		onPath := false
+		if f.step == "dnskey" {
+			for _, z := range truth.Zones {
+				if z.Name == f.zone {
+					onPath = true
+				}
+			}
+		}
+		resign := f.kind == "sig-resign" || f.kind == "forge-resign"
+		if (own || onPath) && f.kind != "drop-some-sigs" && !resign || (own && resign) {
+			res.Fail("C01/tampered-not-servfail", "%s: tampering %s hit the %s response of %s for %s/%s, yet the client did not get SERVFAIL", ctx, f.kind, f.step, f.zone, f.qname, dns.TypeToString[f.qtype])
+			return false
+		}
+	}
+	return true
 }
 
 func shrinkC01(sc0 any, fails func(any) bool) any {
